@@ -264,6 +264,8 @@ impl DepthFirstSearch {
         kb: &KnowledgeBase,
         depth: usize,
     ) -> bool {
+        #[cfg(rre_verif)]
+        crate::verif_hooks::step("backward.dfs");
         self.goals_explored += 1;
 
         // Check depth limit
@@ -970,6 +972,8 @@ impl BreadthFirstSearch {
         queue.push_back((root_goal as *mut Goal, 0));
 
         while let Some((goal_ptr, depth)) = queue.pop_front() {
+            #[cfg(rre_verif)]
+            crate::verif_hooks::step("backward.bfs");
             // Safety: We maintain ownership properly
             let goal = unsafe { &mut *goal_ptr };
 
